@@ -166,10 +166,102 @@ static std::string enc(const toks_t& t)
     return "ok x" + hex(bytes) + " | " + dec_bytes<F, Json>(bytes, o);
 }
 
+static jc::semantic_tag tok_tag(std::string& tok)
+{
+    auto at = tok.find('@');
+    if (at == std::string::npos) return jc::semantic_tag::none;
+    jc::semantic_tag tag = tag_of_name(tok.substr(at));
+    tok = tok.substr(0, at);
+    return tag;
+}
+
+// push an event sequence into any visitor; returns false at the first error
+static bool push_events(jc::json_visitor& enc, const toks_t& t, std::size_t from, std::error_code& ec)
+{
+    jc::ser_context ctx;
+    for (std::size_t i = from; i < t.size() && !ec; ++i)
+    {
+        std::string tok = t[i];
+        jc::semantic_tag tag = tok_tag(tok);
+        const char c = tok[0];
+        const std::string arg = tok.substr(tok.size() > 1 && (tok[1] == 'A' || tok[1] == 'O') ? 2 : 1);
+        if (tok.compare(0, 2, "BA") == 0)
+        {
+            if (arg == "*") enc.begin_array(tag, ctx, ec); else enc.begin_array(std::strtoull(arg.c_str(), nullptr, 10), tag, ctx, ec);
+        }
+        else if (tok == "EA") enc.end_array(ctx, ec);
+        else if (tok.compare(0, 2, "BO") == 0)
+        {
+            if (arg == "*") enc.begin_object(tag, ctx, ec); else enc.begin_object(std::strtoull(arg.c_str(), nullptr, 10), tag, ctx, ec);
+        }
+        else if (tok == "EO") enc.end_object(ctx, ec);
+        else if (c == 'K') { std::string k = unhex(tok, 1); enc.key(k, ctx, ec); }
+        else if (c == 'S') { std::string v = unhex(tok, 1); enc.string_value(v, tag, ctx, ec); }
+        else if (c == 'B') { std::string v = unhex(tok, 1); enc.byte_string_value(jc::byte_string_view(reinterpret_cast<const uint8_t*>(v.data()), v.size()), tag, ctx, ec); }
+        else if (c == 'I') enc.int64_value(std::strtoll(arg.c_str(), nullptr, 10), tag, ctx, ec);
+        else if (c == 'U') enc.uint64_value(std::strtoull(arg.c_str(), nullptr, 10), tag, ctx, ec);
+        else if (c == 'D') { uint64_t b = std::strtoull(arg.c_str(), nullptr, 16); double d; std::memcpy(&d, &b, 8); enc.double_value(d, tag, ctx, ec); }
+        else if (c == 'H') enc.half_value(static_cast<uint16_t>(std::strtoul(arg.c_str(), nullptr, 16)), tag, ctx, ec);
+        else if (c == 'N') enc.null_value(tag, ctx, ec);
+        else if (c == 'T') enc.bool_value(true, tag, ctx, ec);
+        else if (c == 'F') enc.bool_value(false, tag, ctx, ec);
+        else throw bad_op{};
+    }
+    if (!ec) enc.flush();
+    return !ec;
+}
+
+template <class F>
+static std::string events(const toks_t& t)
+{
+    auto o = parse_opts<F>(t.at(3));
+    std::vector<uint8_t> out;
+    typename F::bytes_encoder enc(out, o);
+    std::error_code ec;
+    try { push_events(enc, t, 4, ec); }
+    catch (const jc::ser_error& e) { ec = e.code(); }
+    if (ec) return errname(ec);
+    std::string bytes(out.begin(), out.end());
+    return "ok x" + hex(bytes) + " | " + dec_bytes<F, ojson>(bytes, o);
+}
+
+static std::string json_events(const toks_t& t)
+{
+    // jsonev <c|p> <events…>: the JSON text encoders fed with raw events
+    std::string out;
+    std::error_code ec;
+    try
+    {
+        if (t.at(2) == "c") { jc::compact_json_string_encoder enc(out); push_events(enc, t, 3, ec); }
+        else { jc::json_string_encoder enc(out); push_events(enc, t, 3, ec); }
+    }
+    catch (const jc::ser_error& e) { ec = e.code(); }
+    if (ec) return errname(ec);
+    return "ok x" + hex(out);
+}
+
 template <class F>
 static std::string run(const toks_t& t)
 {
     const std::string& op = t[1];
+    if (op == "events") return events<F>(t);
+    if (op == "tojson")
+    {
+        // decode, then serialise the decoded value as JSON text (transcoding must stay valid)
+        auto o = parse_opts<F>(t.at(3));
+        std::string bytes = xarg(t.at(4));
+        jc::json_decoder<ojson> dec;
+        std::error_code ec;
+        std::vector<uint8_t> v(bytes.begin(), bytes.end());
+        typename F::bytes_reader r(v, dec, o);
+        r.read(ec);
+        if (ec || !dec.is_valid()) return errname(ec);
+        ojson j = dec.get_result();
+        std::string text;
+        try { j.dump(text); }
+        catch (const jc::ser_error& e) { return "ok " + show(j) + " | err " + std::to_string(e.code().value()); }
+        return "ok " + show(j) + " | x" + hex(text);
+    }
     if (op == "enc")
     {
         if (t.at(3) == "j") return enc<F, json>(t);
@@ -187,8 +279,49 @@ static std::string run(const toks_t& t)
     throw bad_op{};
 }
 
+template <class F1, class F2>
+static std::string trans(const toks_t& t)
+{
+    std::string bytes = xarg(t.at(4));
+    typename F1::options o1;
+    typename F2::options o2;
+    jc::json_decoder<ojson> dec;
+    std::error_code ec;
+    std::vector<uint8_t> v(bytes.begin(), bytes.end());
+    typename F1::bytes_reader r(v, dec, o1);
+    r.read(ec);
+    if (ec || !dec.is_valid()) return errname(ec);
+    ojson j = dec.get_result();
+    std::vector<uint8_t> out;
+    try { F2::encode(j, out, o2); }
+    catch (const jc::ser_error& e) { return "ok " + show(j) + " | err " + std::string(e.code().category().name()) + ":" + std::to_string(e.code().value()); }
+    std::string b2(out.begin(), out.end());
+    return "ok " + show(j) + " | x" + hex(b2) + " | " + dec_bytes<F2, ojson>(b2, o2);
+}
+
+template <class F1>
+static std::string trans1(const toks_t& t)
+{
+    const std::string& f2 = t.at(3);
+    if (f2 == "cbor") return trans<F1, cbor_f>(t);
+    if (f2 == "msgpack") return trans<F1, msgpack_f>(t);
+    if (f2 == "ubjson") return trans<F1, ubjson_f>(t);
+    if (f2 == "bson") return trans<F1, bson_f>(t);
+    throw bad_op{};
+}
+
 std::string jvh::handle(const toks_t& t)
 {
+    if (t.size() >= 3 && t[0] == "bin" && t[1] == "jsonev") return json_events(t);
+    if (t.size() >= 5 && t[0] == "bin" && t[1] == "trans")
+    {
+        const std::string& f1 = t[2];
+        if (f1 == "cbor") return trans1<cbor_f>(t);
+        if (f1 == "msgpack") return trans1<msgpack_f>(t);
+        if (f1 == "ubjson") return trans1<ubjson_f>(t);
+        if (f1 == "bson") return trans1<bson_f>(t);
+        throw bad_op{};
+    }
     if (t.size() < 4 || t[0] != "bin") throw bad_op{};
     const std::string& f = t[2];
     if (f == "cbor") return run<cbor_f>(t);
